@@ -219,6 +219,9 @@ def main(run, tier):
                        'statements); the look-behind state machine of the lexer by transition contracts on the real AST; the decision '
                        '"offending token" itself is ply\'s error detection (assumed); bounded differential stand-in')
     run.floor = 15
+    from . import attrobl
+    import contracts.frames as _fr
+    attrobl.frame_obligations(run, _fr.LEXER_STATE)
     for f in ('calmjs.parse.lexers.es5', 'calmjs.parse.parsers.es5'):
         run.function(f, scratch.sha256_file(scratch.module_path(f))[:16])
     grammar_obligations(run, g, shapes)
